@@ -74,7 +74,7 @@ def with_user_functions(R, backend: str, text: str) -> Tuple[str, List[Dict[str,
     return text, md
 
 
-def make_variants(ctx: Ctx, q: str, md: List[Dict[str, Any]], R) -> List[Tuple[str, str, str]]:
+def make_variants(ctx: Ctx, q: str, md: List[Dict[str, Any]], R, allow_fused: bool = True) -> List[Tuple[str, str, str]]:
     """[(kind, query text, wire)] ; the base query text has metadata attached at the dataset."""
     full = diff.attach_metadata(q, md)
     tree = V.parse(full)
@@ -99,7 +99,7 @@ def make_variants(ctx: Ctx, q: str, md: List[Dict[str, Any]], R) -> List[Tuple[s
     out.append(("style_function", ast.unparse(V.to_style(tree, "function")), "ast"))
     out.append(("style_method", ast.unparse(V.to_style(tree, "method")), "ast"))
     ft, n = V.fuse(tree)
-    if n:
+    if n and allow_fused:
         out.append(("fused", ast.unparse(ft), "ast"))
     stripped, mds = V.strip_metadata(tree)
     if mds:
@@ -138,6 +138,7 @@ def run(ctx: Ctx) -> int:
                 except qgen.CannotGenerate:
                     continue
                 md = diff.members_used(s, q["query"])
+                umd: List[Dict[str, Any]] = []
                 if R.random() < 0.3:
                     q = dict(q)
                     q["query"], umd = with_user_functions(R, backend, q["query"])
@@ -148,11 +149,19 @@ def run(ctx: Ctx) -> int:
                     # registered namespaces (define_enum) must not capture a lambda parameter that happens to carry their name
                     md = md + [{"metadata_type": "define_enum", "namespace": "xAOD.Jet", "name": "Color", "values": ["Red", "Blue"]},
                                {"metadata_type": "define_enum", "namespace": "Trig", "name": "Bits", "values": ["A", "B"]}]
-                groups.append((backend, q, make_variants(ctx, q["query"], md, R)))
+                # fusion is an extra beyond the property's wording; its TEXT is only comparable where every sub-expression is
+                # emitted once, which does not hold for injected code (one block per evaluation of the call)
+                groups.append((backend, q, make_variants(ctx, q["query"], md, R, allow_fused=not umd)))
     for f in karg:
         w = f["witness"]
         groups.append((w["backend"], {"query": w["base"], "features": {"witness": 2, "w": 2}, "witness_of": f},
                        [("base", w["base"], "ast"), ("alpha", w["variant"], "ast")]))
+    # witnesses of repaired findings are ordinary regression groups
+    for f in ctx._findings:
+        w = f.get("witness") or {}
+        if f["status"] == "fixed" and f["property"] == "C08" and w.get("kind") == "c08" and not ctx.replay:
+            groups.append((w["backend"], {"query": w["base"], "features": {"regression_" + f["key"]: 2, "w": 2}}, [("base", w["base"], "ast"), ("alpha", w["variant"], "ast")]))
+            ctx.count("fixed_witnesses_rerun")
     reqs, index = [], []
     for gi, (backend, q, vs) in enumerate(groups):
         for vi, (kind, text, wire) in enumerate(vs):
